@@ -57,10 +57,10 @@ void BEGINStatement::docatch(const RuntimeError& rt, Context& ctx) const
               )))
       {
         /* catch the user defined exception */
+        /* save catched error in the context */
+        RuntimeError enclosing(ctx.error());
         try
         {
-          /* save catched error in the context */
-          RuntimeError enclosing(ctx.error());
           ctx.error(rt);
           /* it should run with the given context */
           c.second->run(ctx, c.second->statements());
@@ -70,7 +70,9 @@ void BEGINStatement::docatch(const RuntimeError& rt, Context& ctx) const
         }
         catch (RuntimeError& rte)
         {
-          /* note: the saved error will be kept for debug */
+          /* the handler is left by an error of its own: the one it was
+           * handling is no longer the current error of anything */
+          ctx.error(enclosing);
           /* close block before throw */
           ctx.execEnd();
           throw;
